@@ -188,7 +188,7 @@ def gen_affine_cases(draw):
     return {
         "sig": draw(signal_specs()),
         "model": draw(st.sampled_from(["scaling", "linear", "linear"])),
-        "s": draw(st.one_of(st.just(1.0), dy(-4, 4, 4))),
+        "s": draw(st.one_of(st.just(1.0), dy(-4, 4, 4), dy(-4, 4, 4), dy(-4, 4, 4))),
         "o": draw(dy(-4, 4, 4)),
         "key": draw(st.sampled_from(["", "balancing "])),
         "via": draw(st.sampled_from(["ctor", "ctor", "update", "dofs-none", "dofs-all", "dofs-both",
@@ -757,6 +757,13 @@ def check_threshold(case):
                         f"voxel {bad} with value {x[bad]} (bounds lo={lo} hi={hi}, mask="
                         f"{None if mask is None else bool(mask[bad])}): got {bool(gb[bad])}, expected "
                         f"{bool(want[bad])}", t)
+    try:
+        m.update_model_parameters(np.array([0.0, 1.0]))
+    except NotImplementedError:
+        pass  # documented: static thresholds cannot be calibrated
+    else:
+        raise Violation("threshold-update-accepted", "StaticThresholdModel.update_model_parameters did "
+                        "not raise NotImplementedError", t)
     hits = bool(np.any(np.isin(x, lo)) or (hi is not None and np.any(np.isin(x, hi))))
     return Outcome(n >= 2 or hits, [case["labels"] if het else case["sig"], lo, hi, case["mask"],
                                     case["return_float"], case["pseed"], case["form"]],
@@ -776,10 +783,11 @@ def kernel_specs(draw, max_n=4, dims=(3, 3, 3, 2, 1)):
     d = draw(st.sampled_from(list(dims)))
     if ktype == "gaussian":
         par = draw(st.sampled_from([0.5, 1.0, 2.0, 4.0, 8.0, 9.73]))
-        n = draw(st.integers(1, max_n))
+        n = min(max_n, draw(st.sampled_from([1, 2, 2, 3, 3, 4])))
     else:
         par = draw(st.sampled_from([0.0, 0.0, 0.25, 1.0]))
-        n = draw(st.integers(1, min(max_n, d + (1 if par > 0 else 0))))
+        nmax = min(max_n, d + (1 if par > 0 else 0))
+        n = min(nmax, draw(st.sampled_from([1, 2, 2, 3, 3, 4])))
     return {"ktype": ktype, "par": par, "n": n, "d": d, "pseed": draw(st.integers(0, 2**20))}
 
 
@@ -966,7 +974,8 @@ def gen_fast_cases(draw):
     shape = [draw(st.integers(1, 6)) for _ in range(ndim - 1)] + [d]
     return {"ktype": ktype, "par": draw(st.sampled_from([0.5, 1.0, 2.0, 8.0] if ktype == "gaussian"
                                                       else [0.0, 0.25, 1.0])),
-            "n": draw(st.integers(1, 5)), "d": d, "shape": shape, "pseed": draw(st.integers(0, 2**20)),
+            "n": draw(st.sampled_from([1, 2, 2, 3, 4, 5])), "d": d, "shape": shape,
+            "pseed": draw(st.integers(0, 2**20)),
             "range": draw(st.sampled_from(["unit", "signed"]))}
 
 
